@@ -16,7 +16,7 @@ QUICK = {'budget_s': 40}
 THOROUGH = {'budget_s': 480}
 EXPECTED_PROBES = ['aborts_delivered', 'second_abort_delivered', 'abort_before_final_teardown', 'abort_during_plug_teardown_or_finalization', 'abort_after_finalization']
 
-PROF = gen.profile(max_nodes=12, max_depth=3, w_phase=9, w_group=6, w_subtest=3, w_branch=1, w_ckpt_fail=1, w_ckpt_diag=0, p_fault_beh=250, p_timeout=40, p_dur=450, p_opts=250, abort=1000, abort2=300, sigint=350, p_plug=250, p_test_start=300, p_callbacks_raise=100, p_profile=350)
+PROF = gen.profile(max_nodes=12, max_depth=3, w_phase=9, w_group=6, w_subtest=3, w_branch=1, w_ckpt_fail=1, w_ckpt_diag=0, p_fault_beh=250, p_timeout=40, p_dur=450, p_opts=250, abort=1000, abort2=300, sigint=350, p_plug=250, p_test_start=300, p_callbacks_raise=100, p_profile=350, p_bare=200)
 
 
 def setup():
